@@ -90,6 +90,54 @@ const LINES: [&[u8]; 78] = [b"--- a/f\n", b"+++ b/f\n", b"--- /dev/null\n", b"++
  b"--- a/d/g\n", b"+++ b/d/g\n", b"--- \"\"\n", b"+++ \"\\\"x\"\n", b"--- a/\xff\xfe\n", b"@@ -5,0 +5,2 @@\n", b"@@ -4,2 +3,0 @@\n", b"@@ -9223372036854775807,0 +1,1 @@\n", b"--- a//f/\n", b"+++ ./b/../f\n",
  b"diff --git \"a b\" \"c d\"\n", b"old mode 000644\n", b"--- a\\b\n", b" a", b"@@ -1,0 +1,0 @@\n"];
 
+/// every kind of whitespace the parser knows, quote, backslash, control and non-UTF-8 bytes, separators
+const NAME_BYTES: [u8; 18] = [b'a', b'b', b'/', b'.', b'-', b' ', b'\t', 0x0b, 0x0c, b'\r', b'"', b'\\', 0xff, 0x01, 0x7f, b'\n', b'#', b'x'];
+
+fn rand_name(rng: &mut Rng) -> Vec<u8> {
+    let n = 1 + rng.below(5);
+    (0..n).map(|_| NAME_BYTES[rng.below(NAME_BYTES.len())]).collect()
+}
+
+/// `name` as a double-quoted C string the parser accepts (letter escapes or octal, at random)
+fn c_quote(rng: &mut Rng, name: &[u8]) -> Vec<u8> {
+    let mut o = vec![b'"'];
+    for &c in name {
+        let letter: Option<u8> = match c { 0x07 => Some(b'a'), 0x08 => Some(b'b'), 0x0c => Some(b'f'), b'\n' => Some(b'n'), b'\r' => Some(b'r'), b'\t' => Some(b't'), 0x0b => Some(b'v'), _ => None };
+        if c == b'"' || c == b'\\' { o.push(b'\\'); o.push(c); }
+        else if c == b'\n' || (c < 0x20 || c >= 0x7f || c == b' ') && rng.chance(70) {
+            match letter { Some(l) if rng.chance(50) => { o.push(b'\\'); o.push(l); }, _ => o.extend_from_slice(format!("\\{:03o}", c).as_bytes()) }
+        }
+        else { o.push(c); }
+    }
+    o.push(b'"');
+    o
+}
+
+fn named_file_patch(rng: &mut Rng) -> Vec<u8> {
+    let old = rand_name(rng);
+    let new = if rng.chance(60) { old.clone() } else { rand_name(rng) };
+    let plain = |rng: &mut Rng, n: &[u8]| -> Vec<u8> {
+        // bare when that is possible and chosen, else quoted
+        if !n.is_empty() && n[0] != b'"' && !n.iter().any(|&c| is_ws(c)) && rng.chance(40) { n.to_vec() } else { c_quote(rng, n) }
+    };
+    fn is_ws(c: u8) -> bool { c == b' ' || c == 0x0c || c == b'\n' || c == b'\r' || c == b'\t' || c == 0x0b }
+    let mut b = Vec::new();
+    let git = rng.chance(50);
+    let rename = git && old != new && rng.chance(60);
+    if git {
+        b.extend_from_slice(b"diff --git "); b.extend(plain(rng, &old)); b.push(b' '); b.extend(plain(rng, &new)); b.push(b'\n');
+        if rename { b.extend_from_slice(b"rename from "); b.extend(plain(rng, &old)); b.extend_from_slice(b"\nrename to "); b.extend(plain(rng, &new)); b.push(b'\n'); }
+        if rng.chance(30) { b.extend_from_slice(b"old mode 100644\nnew mode 100755\n"); }
+    }
+    let hunks = !rename || rng.chance(60);
+    if hunks {
+        b.extend_from_slice(b"--- "); b.extend(plain(rng, &old)); if rng.chance(30) { b.extend_from_slice(b"\t2020-01-01 00:00:00"); } b.push(b'\n');
+        b.extend_from_slice(b"+++ "); b.extend(plain(rng, &new)); b.push(b'\n');
+        b.extend_from_slice(*rng.pick(&[&b"@@ -1 +1 @@\n-a\n+b\n"[..], &b"@@ -1,2 +1,2 @@\n a\n-a\n+b\n"[..], &b"@@ -2,0 +3,1 @@\n+b\n"[..]]));
+    }
+    b
+}
+
 pub fn fixtures() -> Vec<Vec<u8>> {
     let mut v = Vec::new();
     fn walk(dir: &std::path::Path, v: &mut Vec<Vec<u8>>) {
@@ -116,6 +164,14 @@ pub fn run<W: Write>(out: &mut W, seed: u64, n: usize, _opts: &HashMap<String, S
     for _ in 0..n {
         let k = 1 + rng.below(9);
         let mut b: Vec<u8> = Vec::new();
+        if rng.chance(12) {
+            // file patches whose names are drawn from the bytes that matter to quoting, written as C strings
+            for _ in 0..(1 + rng.below(2)) { b.extend_from_slice(&named_file_patch(&mut rng)); }
+            let strip = *rng.pick(&[0usize, 0, 0, 1]);
+            emit(out, id, &b, strip);
+            id += 1;
+            continue;
+        }
         for _ in 0..k { b.extend_from_slice(LINES[rng.below(LINES.len())]); }
         let r = rng.below(100);
         if r < 10 && !b.is_empty() { let cut = rng.below(b.len() + 1); b.truncate(cut); }
